@@ -48,14 +48,16 @@ def coarse : Except Err Unit → String
   | .error (.panic s) => "panic:" ++ s
   | .error _ => "rej"
 
-/-- the value a text denotes, or why it is outside the modelled domain -/
-def readValue (t : Bytes) : Except String (Option JVal) :=
-  match parse t with
-  | none => .ok none
-  | some p =>
-    if !p.noDupKeys then .error "skip:dupkeys (sjson deletes the first duplicate, Go maps keep the last)"
-    else if !p.wellFormed then .error "skip:ill-formed-unicode (invalid UTF-8 / lone surrogates: Go replaces, CompactJSON drops)"
-    else .ok (some p.toJVal)
+/-- the parsed text (`none`: not JSON) -/
+def readText (t : Bytes) : Option PVal := parse t
+
+/-- inside the gate of SignJSON / VerifyJSON (`strictJSON`) -/
+def strictP (p : PVal) : Bool := p.wellFormed && p.noDupKeys
+
+/-- specification answer for a text the gate refuses: refusal is DEMANDED when the signed members themselves
+    are ambiguous; ambiguity confined to `signatures` / `unsigned` is outside the property's text -/
+def specAmbiguous (p : PVal) (refusal : String) : String :=
+  if !Spec.definitePayload p then refusal else "unspecified:ambiguous-outside-the-signed-members"
 
 def insertSorted (x : String) : List String → List String
   | [] => [x]
@@ -72,21 +74,21 @@ def handle (op : String) (args : Array String) : Option String :=
   | "sign", [_label, th, nh, kh, _key] =>
     match unhex th, unhex nh, unhex kh with
     | some t, some name, some kid =>
-      match readValue t with
-      | .error why => some why
-      | .ok none => some "err"
-      | .ok (some v) =>
+      match readText t with
+      | none => some "err"
+      | some p =>
+        let v := p.toJVal
         let pay : Bytes := match v with
           | .obj o => payload o
           | _ => encodeCanon v
         let S := oracleScheme [(marker, dummyPk, pay)]
-        let res := signJSON S name kid () v
+        let res := signJSONText S name kid () t
         let m := match res with
-          | .ok out => "ok:" ++ hex (encodeCanon out) ++ ":" ++ hex pay ++ ":" ++ showVerdict (verifyJSON S name kid dummyPk out)
+          | .ok out => "ok:" ++ hex (encodeCanon out) ++ ":" ++ hex pay ++ ":" ++ showVerdict (verifyJSONText S name kid dummyPk (encodeCanon out))
           | .error (.panic s) => "panic:" ++ s
           | .error _ => "err"
         -- specification: what C02 demands of the signed object (only when signing is not refused)
-        let s := match v, res with
+        let s := if !strictP p then specAmbiguous p "err" else match v, res with
           | .obj _, .error (.other _) => "unspecified:signing-refused"
           | .obj _, .error .badJSON => "unspecified:signing-refused"
           | .obj _, _ =>
@@ -99,20 +101,17 @@ def handle (op : String) (args : Array String) : Option String :=
   | "verify", [_label, th, nh, kh, pkh, fs, _expect] =>
     match unhex th, unhex nh, unhex kh, unhex pkh, parseFacts fs with
     | some t, some name, some kid, some pk, some facts =>
-      match readValue t with
-      | .error why => some why
-      | .ok none => some "err:json"
-      | .ok (some v) => some (showVerdict (verifyJSON (oracleScheme facts) name kid pk v))
+      some (showVerdict (verifyJSONText (oracleScheme facts) name kid pk t))
     | _, _, _, _, _ => some "bad-op"
   | "accept", [_label, th, nh, kh, pkh, fs, expect] =>
     match unhex th, unhex nh, unhex kh, unhex pkh, parseFacts fs with
     | some t, some name, some kid, some pk, some facts =>
-      match readValue t with
-      | .error why => some why
-      | .ok none => some "rej\trej"
-      | .ok (some v) =>
+      match readText t with
+      | none => some "rej\trej"
+      | some p =>
+        let v := p.toJVal
         let S := oracleScheme facts
-        let m := coarse (verifyJSON S name kid pk v)
+        let m := coarse (verifyJSONText S name kid pk t)
         let a := Spec.accepts S name kid pk v
         let wf := match v with
           | .obj o => Spec.wellFormedSigs (getLast o kSignatures)
@@ -120,7 +119,9 @@ def handle (op : String) (args : Array String) : Option String :=
         -- the property demands rejection whenever there is no valid signature of (name, kid, pk) over the
         -- payload, and acceptance when there is one and `signatures` is a well-formed signature object
         let s :=
-          if expect == "ok" then (if a && wf then "ok" else "spec-mismatch:generator-expects-ok")
+          if !strictP p then
+            (if expect == "ok" then "spec-mismatch:generator-expects-ok" else specAmbiguous p "rej")
+          else if expect == "ok" then (if a && wf then "ok" else "spec-mismatch:generator-expects-ok")
           else if expect == "rej" then (if !a then "rej" else "spec-mismatch:generator-expects-rej")
           else if !a then "rej" else if wf then "ok" else "unspecified:signatures-not-a-signature-map"
         some (m ++ "\t" ++ s)
@@ -128,10 +129,13 @@ def handle (op : String) (args : Array String) : Option String :=
   | "list", [_label, th, nh] =>
     match unhex th, unhex nh with
     | some t, some name =>
-      match readValue t with
-      | .error why => some why
-      | .ok none => some "err"
-      | .ok (some v) =>
+      match readText t with
+      | none => some "err"
+      | some p =>
+        -- ListKeyIDs has no gate of its own (its callers go on to VerifyJSON, which has); on texts the gate
+        -- refuses the value-level model is not tied to encoding/json (which member wins, U+FFFD rewriting)
+        if !strictP p then some "skip:list-on-a-text-VerifyJSON-refuses (duplicate names / ill-formed Unicode)" else
+        let v := p.toJVal
         let m := match listKeyIDs name v with
           | some ks => showKeys ks
           | none => "err"
